@@ -4,7 +4,7 @@ import ComposeVerif.Model.C11Defaults
 
 `Normalize` = `normalizeNetworks` ; per-service loop ; `setNameFromKey`.  Every unchecked type
 assertion of the Go code is a conjunct of one of the three *shape* predicates below; when one
-fails the outcome is `panic <function>` (the functions run one after the other, and all
+fails the outcome is `err <function>` (a panic before the C01 repairs of round 2) (the functions run one after the other, and all
 assertions of one function report the same site, so the outcome does not depend on Go's map
 order).  When all hold the result is the pure function `normalizePure`.
 
@@ -312,7 +312,7 @@ def shapeNamespace (s : KVs) (ns : String) : Bool :=
   match lookup ns s with
   | none => true
   | some (.str _) => true
-  | some _ => false
+  | some _ => true      -- `ref, _ := n.(string)`: since the repair of the empty-`pid:` panic any kind is tolerated (no dependency)
 
 def shapeService : Val → Bool
   | .map s =>
@@ -397,9 +397,9 @@ def normalizePure (clean : String → String) (env : Env) (d : KVs) : KVs :=
   setNames (normServices clean env (normNetworks d))
 
 def normalize (clean : String → String) (env : Env) (d : KVs) : Out KVs :=
-  if !shapeNN d then .panic "loader.normalizeNetworks"
-  else if !shapeServices d then .panic "loader.Normalize"
-  else if !shapeNames d then .panic "loader.setNameFromKey"
+  if !shapeNN d then .err "normalizeNetworks"
+  else if !shapeServices d then .err "Normalize"
+  else if !shapeNames d then .err "setNameFromKey"
   else .ok (normalizePure clean env d)
 
 end CV.C11
